@@ -257,7 +257,7 @@ func c08EnumerateLines(s *pbt.Session, m int) int64 {
 }
 
 func c08Mutate(t *rapid.T, text []byte) []byte {
-	kind := rapid.SampledFrom([]string{"lead-ws", "trail-ws", "lead-garbage", "trail-garbage", "lower", "join", "split", "pgp-checksum", "crlf-all", "crlf-one", "cr-insert", "blank-line", "dup-line", "del-line", "flip-char", "pad-strip", "space-eol", "second-block", "none"}).Draw(t, "amut")
+	kind := rapid.SampledFrom([]string{"lead-ws", "trail-ws", "lead-garbage", "trail-garbage", "lower", "join", "split", "pgp-checksum", "crlf-all", "crlf-one", "cr-insert", "blank-line", "dup-line", "del-line", "flip-char", "pad-strip", "space-eol", "second-block", "ws-then-data", "none"}).Draw(t, "amut")
 	lines := strings.Split(strings.TrimSuffix(string(text), "\n"), "\n")
 	li := rapid.IntRange(0, len(lines)-1).Draw(t, "line")
 	join := func() []byte { return []byte(strings.Join(lines, "\n") + "\n") }
@@ -268,6 +268,9 @@ func c08Mutate(t *rapid.T, text []byte) []byte {
 		return append([]byte(ws+"\n"), text...)
 	case "trail-ws":
 		return append(append([]byte{}, text...), ws...)
+	case "ws-then-data":
+		// a lot of whitespace after the END line, then foreign data
+		return append(append(append([]byte{}, text...), ws...), rapid.SampledFrom([]string{"x", "garbage\n", refage.ArmorHeader + "\nQUFB\n" + refage.ArmorFooter + "\n"}).Draw(t, "after")...)
 	case "lead-garbage":
 		return append([]byte("garbage\n"), text...)
 	case "trail-garbage":
